@@ -1,0 +1,202 @@
+//go:build verif
+
+package dastard
+
+// Verification hooks for property C04 (build tag "verif" only): a LanceroSource assembled by hand
+// around a card supplied by the harness (lancero.Lanceroer is an exported interface, so the scripted
+// card itself lives outside this package), plus accessors. No logic of dastard is changed or
+// duplicated here: the reader goroutine, getNextBlock, distributeData, MixRetardFb,
+// updateChanOrderMap and ConfigureMixFraction are the real ones.
+
+import (
+	"fmt"
+	"sync"
+	"time"
+
+	"github.com/usnistgov/dastard/lancero"
+)
+
+// VerifLanceroConfig describes the one active card and what else sits in LanceroSource.devices.
+type VerifLanceroConfig struct {
+	Card       lancero.Lanceroer
+	Devnum     int     // device number (= map key) of the active card
+	Ncols      int     // columns of the active card
+	Nrows      int     // rows of the active card
+	OtherDevs  []int   // further device numbers present in the map but not active (never configured: nrows 0)
+	SampleRate float64 // frames per second
+	Nsamp      int     // NSAMP (divides the mix fraction)
+}
+
+// VerifLancero wraps the hand-built source.
+type VerifLancero struct {
+	LS      *LanceroSource
+	pending chan *dataBlock // channel returned by the outstanding getNextBlock call (nil: none)
+}
+
+// VerifLanceroBlock is the projection of a dataBlock that the harness compares.
+type VerifLanceroBlock struct {
+	Closed      bool // the nextBlock channel was closed (source stopped)
+	Err         string
+	NSamp       int
+	FirstFrame  []int64 // per channel
+	Dropped     []int   // per channel
+	Signed      []bool
+	FirstTimeNs []int64 // per channel, nanoseconds since the zero time.Time
+	Data        [][]uint16
+	ExtTrig     []int64
+}
+
+var verifLanceroPubOnce sync.Once
+
+// VerifNewLancero builds the source the way Configure+Sample would for one active card
+// (without touching hardware or ~/.cringe) and runs PrepareChannels and PrepareRun.
+func VerifNewLancero(cfg VerifLanceroConfig) (*VerifLancero, error) {
+	verifLanceroPubOnce.Do(func() {
+		// nobody publishes in this bench; pre-set channels keep PrepareRun from binding ZMQ ports
+		if PubRecordsChan == nil {
+			PubRecordsChan = make(chan []*DataRecord, 16)
+		}
+		if PubSummariesChan == nil {
+			PubSummariesChan = make(chan []*DataRecord, 16)
+		}
+	})
+	ls := new(LanceroSource)
+	ls.name = "Lancero"
+	ls.nsamp = cfg.Nsamp
+	ls.devices = make(map[int]*LanceroDevice)
+	ls.channelsPerPixel = 2
+	dev := &LanceroDevice{devnum: cfg.Devnum, nrows: cfg.Nrows, ncols: cfg.Ncols, lsync: 40, clockMHz: 125,
+		frameSize: cfg.Ncols * cfg.Nrows * 4, card: cfg.Card}
+	ls.devices[cfg.Devnum] = dev
+	ls.ncards = 1
+	for _, d := range cfg.OtherDevs {
+		if d != cfg.Devnum {
+			ls.devices[d] = &LanceroDevice{devnum: d}
+			ls.ncards++
+		}
+	}
+	ls.active = []*LanceroDevice{dev}
+	ls.clockMHz = 125
+	ls.firstRowChanNum = 1
+	ls.nchan = cfg.Ncols * cfg.Nrows * 2
+	ls.sampleRate = cfg.SampleRate
+	ls.samplePeriod = time.Duration(roundint(1e9 / ls.sampleRate))
+	ls.updateChanOrderMap()
+	ls.voltsPerArb = make([]float32, ls.nchan)
+	for i := range ls.voltsPerArb {
+		ls.voltsPerArb[i] = 1
+	}
+	ls.mixRequests = make(chan *MixFractionObject, 10)
+	ls.currentMix = make(chan []float64, 10)
+	if err := ls.PrepareChannels(); err != nil {
+		return nil, err
+	}
+	if err := ls.PrepareRun(4, 8); err != nil {
+		return nil, err
+	}
+	return &VerifLancero{LS: ls}, nil
+}
+
+// Launch starts the real reader goroutine.
+func (v *VerifLancero) Launch() { v.LS.launchLanceroReader() }
+
+// BuffersLen is the number of demultiplexed buffers waiting between the reader and getNextBlock.
+func (v *VerifLancero) BuffersLen() int { return len(v.LS.buffersChan) }
+
+// Chan2Readout returns a copy of the channel -> readout-order table.
+func (v *VerifLancero) Chan2Readout() []int { return append([]int(nil), v.LS.chan2readoutOrder...) }
+
+// Outstanding tells whether a getNextBlock goroutine has been started and not yet delivered.
+func (v *VerifLancero) Outstanding() bool { return v.pending != nil }
+
+// StartNextBlock calls getNextBlock (which starts its goroutine) unless one is already outstanding.
+func (v *VerifLancero) StartNextBlock() {
+	if v.pending == nil {
+		v.pending = v.LS.getNextBlock()
+	}
+}
+
+// Receive waits for the outstanding getNextBlock call to deliver. ok=false on timeout (still outstanding).
+func (v *VerifLancero) Receive(timeout time.Duration) (blk VerifLanceroBlock, ok bool) {
+	if v.pending == nil {
+		return blk, false
+	}
+	select {
+	case b, open := <-v.pending:
+		v.pending = nil
+		if !open || b == nil {
+			return VerifLanceroBlock{Closed: true}, true
+		}
+		return verifLanceroBlock(b), true
+	case <-time.After(timeout):
+		return blk, false
+	}
+}
+
+func verifLanceroBlock(b *dataBlock) VerifLanceroBlock {
+	out := VerifLanceroBlock{NSamp: b.nSamp, ExtTrig: append([]int64(nil), b.externalTriggerRowcounts...)}
+	if b.err != nil {
+		out.Err = b.err.Error()
+	}
+	for _, seg := range b.segments {
+		d := make([]uint16, len(seg.rawData))
+		for i, x := range seg.rawData {
+			d[i] = uint16(x)
+		}
+		out.Data = append(out.Data, d)
+		out.FirstFrame = append(out.FirstFrame, int64(seg.firstFrameIndex))
+		out.Dropped = append(out.Dropped, seg.droppedFrames)
+		out.Signed = append(out.Signed, seg.signed)
+		out.FirstTimeNs = append(out.FirstTimeNs, int64(seg.firstTime.Sub(time.Time{})))
+	}
+	return out
+}
+
+// ConfigureMix is ConfigureMixFraction (needs an outstanding getNextBlock goroutine to answer).
+func (v *VerifLancero) ConfigureMix(chans []int, fracs []float64) ([]float64, error) {
+	return v.LS.ConfigureMixFraction(&MixFractionObject{ChannelIndices: chans, MixFractions: fracs})
+}
+
+// Abort closes abortSelf as Stop would; the reader then closes buffersChan.
+func (v *VerifLancero) Abort() {
+	closeIfOpen(v.LS.abortSelf)
+}
+
+// Cleanup stops the tickers PrepareRun created.
+func (v *VerifLancero) Cleanup() {
+	if t := v.LS.numberWrittenTicker; t != nil {
+		t.Stop()
+	}
+	if t := v.LS.writingState.externalTriggerTicker; t != nil {
+		t.Stop()
+	}
+	if t := v.LS.writingState.dataDropTicker; t != nil {
+		t.Stop()
+	}
+}
+
+// VerifMixRetard runs the real Mix.MixRetardFb over consecutive blocks (fresh Mix, given errorScale).
+func VerifMixRetard(errorScale float64, fbBlocks, errBlocks [][]uint16) ([][]uint16, error) {
+	if len(fbBlocks) != len(errBlocks) {
+		return nil, fmt.Errorf("block count mismatch")
+	}
+	m := &Mix{errorScale: errorScale}
+	var out [][]uint16
+	for k := range fbBlocks {
+		fb := make([]RawType, len(fbBlocks[k]))
+		er := make([]RawType, len(errBlocks[k]))
+		for i, x := range fbBlocks[k] {
+			fb[i] = RawType(x)
+		}
+		for i, x := range errBlocks[k] {
+			er[i] = RawType(x)
+		}
+		m.MixRetardFb(&fb, &er)
+		o := make([]uint16, len(fb))
+		for i, x := range fb {
+			o[i] = uint16(x)
+		}
+		out = append(out, o)
+	}
+	return out, nil
+}
